@@ -202,8 +202,15 @@ Fixpoint norm0 (v : val) : val :=
 Inductive term : Type := TVar (x : string) | TConst (v : val) | TPair (a b : term).
 Inductive pat : Type := PVar (x : string) | PWild | PPair (a b : pat).
 Inductive cmpop : Type := CEq | CNe | CLt | CGt | CLe | CGe.
+(* the source collection of a DEPENDENT generator: an expression over the variables bound by
+   earlier qualifiers, evaluated anew in every environment (expressions.rs::comprehension_environments:
+   `for env in &envs { let collection = expression(expr, Some(env), &new_p)?; ...`) *)
+Inductive coll : Type :=
+| KSet (ts : list term)                    (* a set literal {t1, ..., tn} over earlier variables and constants *)
+| KVar (x : string).                       (* a variable bound by an earlier qualifier (to a set value) *)
 Inductive qual : Type :=
-| QGen (p : pat) (src : list val)          (* p <- src *)
+| QGen (p : pat) (src : list val)          (* p <- src, src a constant collection (literal, outer variable, matrix) *)
+| QGenD (p : pat) (c : coll)               (* p <- c, c depends on the environment *)
 | QFilter (o : cmpop) (a b : term).        (* a o b *)
 
 Definition env : Type := list (string * val).
@@ -276,28 +283,77 @@ Fixpoint filter_map {A B} (f : A -> option B) (l : list A) : list B :=
   | a :: r => match f a with Some b => b :: filter_map f r | None => filter_map f r end
   end.
 
-(* comprehension_environments: qualifiers left to right over the list of environments *)
-Definition step_qual (envs : list env) (q : qual) : list env :=
-  match q with
-  | QGen p src => flat_map (fun e => filter_map (fun v => pmatch p v e) src) envs
-  | QFilter o a b => filter (fun e => match filter_env o a b e with Some true => true | _ => false end) envs
+(* the elements a dependent generator ranges over IN ENVIRONMENT e, in iteration order.
+   None = the evaluator raises an error and the whole comprehension has no value:
+   - {t1, ..., tn}: interpreter/structures.rs::set evaluates every element (an unbound variable is
+     UndefinedVariable: generated programs define no global of that name), refuses elements of
+     different kinds (SetKindMismatch) and builds the set with MechSet::from_vec (duplicates removed,
+     first occurrences kept);
+   - a variable: its value must be a set (comprehension_generator_values: anything that is not a
+     collection is ComprehensionGenerator; the value universe here has no matrices), whose elements
+     are taken in the set's own order. *)
+Definition coll_elems (e : env) (c : coll) : option (list val) :=
+  match c with
+  | KSet ts => match map_opt (eval_term e) ts with
+               | Some vs => if uniform vs then Some (of_list veq vs) else None
+               | None => None
+               end
+  | KVar x => match lookup x e with
+              | Some (VSet _ _ l) => Some l
+              | _ => None
+              end
   end.
 
-Definition run_quals (qs : list qual) : list env := fold_left step_qual qs [[]].
+(* one environment, one collection: the elements that match the pattern extend the environment
+   (`if pattern_match_value(pttrn, &elmnt, &mut new_env).is_ok() { new_envs.push(new_env) }`) *)
+Definition gen_matches (p : pat) (e : env) (l : list val) : list env :=
+  filter_map (fun v => pmatch p v e) l.
 
-(* all filters decidable by the model and the output defined in every environment *)
+(* comprehension_environments: qualifiers left to right over the list of environments.
+   A generator visits the environments in order and, for EACH of them, evaluates its collection in
+   that environment and appends the matches; the first error aborts (`?`).  With no environment
+   left the collection is never evaluated: no error, no environments.  None = error. *)
+Definition step_qual (envs : list env) (q : qual) : option (list env) :=
+  match q with
+  | QGen p src => Some (flat_map (fun e => gen_matches p e src) envs)
+  | QGenD p c =>
+      option_map (@List.concat env)
+                 (map_opt (fun e => option_map (gen_matches p e) (coll_elems e c)) envs)
+  | QFilter o a b => Some (filter (fun e => match filter_env o a b e with Some true => true | _ => false end) envs)
+  end.
+
+Fixpoint run_from (envs : list env) (qs : list qual) : option (list env) :=
+  match qs with
+  | [] => Some envs
+  | q :: r => match step_qual envs q with Some envs' => run_from envs' r | None => None end
+  end.
+
+Definition run_quals (qs : list qual) : option (list env) := run_from [[]] qs.
+
+(* all filters that are reached are decidable by the model (coverage of the check, not of mech) *)
 Fixpoint quals_ok (envs : list env) (qs : list qual) : bool :=
   match qs with
   | [] => true
   | q :: r =>
       (match q with
-       | QGen _ _ => true
        | QFilter o a b => forallb (fun e => match filter_env o a b e with Some _ => true | None => false end) envs
-       end) && quals_ok (step_qual envs q) r
+       | _ => true
+       end) && match step_qual envs q with Some envs' => quals_ok envs' r | None => true end
   end.
 
+(* the values of the output term, one per environment, in order; None = no value (an error, an
+   uncovered filter or an output term that is undefined in some environment) *)
 Definition comp_values (out : term) (qs : list qual) : option (list val) :=
-  if quals_ok [[]] qs then map_opt (fun e => eval_term e out) (run_quals qs) else None.
+  if quals_ok [[]] qs then
+    match run_quals qs with
+    | Some envs => map_opt (fun e => eval_term e out) envs
+    | None => None
+    end
+  else None.
+
+(* a dependent generator's collection cannot be evaluated in an environment that is reached *)
+Definition comp_raises (qs : list qual) : bool :=
+  quals_ok [[]] qs && match run_quals qs with None => true | Some _ => false end.
 
 (* ------------------------------------------------------------------ *)
 (* 4. cases, expected results                                           *)
@@ -315,7 +371,9 @@ Inductive case : Type :=
 | CMem (neg : bool) (ra : bool) (x : val) (a : list val)
 | CComp (out : term) (qs : list qual).
 
-Inductive expect : Type := ESet (l : list val) | EBool (b : bool) | ENone.
+(* EErr: the evaluator raises an error (a comprehension whose dependent generator ranges over something
+   that is not a set / is unbound / mixes kinds); the property fixes nothing there: advisory *)
+Inductive expect : Type := ESet (l : list val) | EBool (b : bool) | EErr | ENone.
 
 Definition set_op (o : setop) : list val -> list val -> list val :=
   match o with OUnion => union veq | OInter => inter veq | ODiff => diff veq | OSym => symdiff veq end.
@@ -328,7 +386,10 @@ Definition expected (c : case) : expect :=
   | CBin o _ _ a b => ESet (set_op o (of_list veq a) (of_list veq b))
   | CRel r _ _ a b => EBool (rel_op r (of_list veq a) (of_list veq b))
   | CMem neg _ x a => EBool (xorb neg (memb veq x (of_list veq a)))
-  | CComp out qs => match comp_values out qs with Some vs => ESet (of_list veq vs) | None => ENone end
+  | CComp out qs => match comp_values out qs with
+                    | Some vs => ESet (of_list veq vs)
+                    | None => if comp_raises qs then EErr else ENone
+                    end
   end.
 
 (* ---------- observations ---------- *)
@@ -355,6 +416,7 @@ Definition check (c : case) (o : sobs) : verdict :=
   | ESet _, _ => VBad "expected-a-set"
   | EBool b, SBool b' => if Bool.eqb b b' then VOk (if b then "true" else "false") else VBad "wrong-truth-value"
   | EBool _, _ => VBad "expected-a-bool"
+  | EErr, _ => VBad "no-value-expected"
   | ENone, _ => VBad "malformed-case"
   end.
 
@@ -502,7 +564,13 @@ Fixpoint term_vals (t : term) : list val :=
 Definition case_vals (c : case) : list val :=
   match c with
   | CComp out qs =>
-      term_vals out ++ flat_map (fun q => match q with QGen _ src => src | QFilter _ a b => term_vals a ++ term_vals b end) qs
+      term_vals out ++
+      flat_map (fun q => match q with
+                         | QGen _ src => src
+                         | QGenD _ (KSet ts) => flat_map term_vals ts
+                         | QGenD _ (KVar _) => []
+                         | QFilter _ a b => term_vals a ++ term_vals b
+                         end) qs
   | _ => written c
   end.
 
@@ -519,6 +587,7 @@ Definition encode_expect (e : expect) : sx :=
   match e with
   | ESet l => Lx [Ax "set-of"; Zx (Z.of_nat (List.length l))]
   | EBool b => Lx [Ax "bool"; Zx (if b then 1 else 0)]
+  | EErr => Ax "error"
   | ENone => Ax "none"
   end.
 
@@ -531,7 +600,7 @@ Fixpoint first_bad (c : case) (os : list sobs) : sx :=
               end
   end.
 
-Definition judge_case (c : case) (os : list sobs) : sx :=
+Definition judge_val (c : case) (os : list sobs) : sx :=
   match os with
   | [] => v_malformed
   | o0 :: _ =>
@@ -541,6 +610,19 @@ Definition judge_case (c : case) (os : list sobs) : sx :=
            | Some id, Some p => if existsb (sobs_eqb p) os then v_kf id else first_bad c os
            | _, _ => first_bad c os
            end
+  end.
+
+(* where the model predicts an error the property fixes nothing: advisory, with the tag saying whether
+   the implementation raised one too *)
+Definition is_err (o : sobs) : bool := match o with SErr => true | _ => false end.
+
+Definition judge_case (c : case) (os : list sobs) : sx :=
+  match expected c with
+  | EErr => match os with
+            | [] => v_malformed
+            | _ => if forallb is_err os then v_adv "generator-error" else v_adv "generator-error-not-raised"
+            end
+  | _ => judge_val c os
   end.
 
 (* ------------------------------------------------------------------ *)
@@ -630,11 +712,23 @@ Definition dec_cmpop (s : string) : option cmpop :=
   else if String.eqb s "lt" then Some CLt else if String.eqb s "gt" then Some CGt
   else if String.eqb s "le" then Some CLe else if String.eqb s "ge" then Some CGe else None.
 
+(* (lit t1 ... tn) | (var x) *)
+Definition dec_coll (x : sx) : option coll :=
+  match x with
+  | Lx (Ax h :: rest) =>
+      if String.eqb h "lit" then option_map KSet (map_opt dec_term rest)
+      else if String.eqb h "var" then match rest with [Ax n] => Some (KVar n) | _ => None end
+      else None
+  | _ => None
+  end.
+
 Definition dec_qual (x : sx) : option qual :=
   match x with
   | Lx [Ax h; p; src] =>
       if String.eqb h "gen" then
         match dec_pat p, dec_wvals src with Some p', Some l => Some (QGen p' l) | _, _ => None end
+      else if String.eqb h "gend" then
+        match dec_pat p, dec_coll src with Some p', Some c => Some (QGenD p' c) | _, _ => None end
       else None
   | Lx [Ax h; Ax o; a; b] =>
       if String.eqb h "flt" then
